@@ -4,6 +4,7 @@ import Driver.Wal
 import Driver.Verifier
 import Driver.Migrate
 import Driver.Sizes
+import Driver.Golden
 open Driver
 
 def runStateless (f : String → String) : IO Unit := do
@@ -29,5 +30,6 @@ def main (args : List String) : IO UInt32 := do
   | ["verifier"] => runStateful ({} : VerSt) verLine; return 0
   | ["migrate"] => runStateless migLine; return 0
   | ["sizes"] => runStateless sizesLine; return 0
+  | ["golden"] => runStateless goldenLine; return 0
   | ["segment"] => runStateful ({} : SegSt) segLine; return 0
   | _ => IO.eprintln "usage: driver <suite>"; return 2
